@@ -494,6 +494,117 @@ def run(ctx):
                     ctx.violation(desc, "a failed flush exposed a different world file at some point")
         shutil.rmtree(d)
 
+    pending_discard = []
+
+    BODY_FAULTS = [("str", RuntimeError), ("str", KeyboardInterrupt), ("str", MemoryError), ("sorted", KeyboardInterrupt),
+                   ("write", OSError), ("write-partial", OSError), ("write", KeyboardInterrupt)]
+
+    def run_body_fault(case, idx, mode, exc_cls, k):
+        """a fault raised *inside the body of flush()* — while the new content is rendered (str() of the k-th entry, the sort) or
+        handed to the file object (write raising before / after part of the data) — i.e. after the temp file was opened and before
+        close(): the error must surface, the temp file must be discarded and the world file must keep its old content exactly
+        (theorem flush_discard_keeps_old; the data is buffered, so OS-level injection alone never reaches these points)"""
+        import pkgcore.pkgsets.filelist as fl_mod
+        d = os.path.join(root, "b%d" % idx)
+        os.makedirs(d)
+        path = os.path.join(d, "world")
+        with open(path, "w") as f:
+            f.write(case["text"])
+        if case.get("stale_tmp"):
+            with open(os.path.join(d, ".update.world"), "w") as f:
+                f.write("x")
+        r = case["reqs"][0]
+        ent = entry_of(r["key"], r["slot"])
+        if r["op"] == "remove" and ent not in entries_of(case["text"]):
+            shutil.rmtree(d)
+            return
+        for e in entries_of(case["text"]):
+            if _rejects(atom, e) or str(atom(e)) != e:
+                shutil.rmtree(d)
+                return
+        desc = {"world_text": case["text"], "request": [r["op"], r["atom"]], "fault_inside_flush_body": mode,
+                "raises": exc_cls.__name__, "at_call": k, "stale_tmp": bool(case.get("stale_tmp"))}
+        old_bytes = case["text"].encode()
+        old_set = sorted(entries_of(case["text"]))
+        ws = WorldFile(path, gid=gid)
+        a = atom(r["atom"])
+        state = {"armed": False, "calls": 0, "fired": False}
+        real_awf = fl_mod.AtomicWriteFile
+        real_str = atom.__str__
+
+        def fire():
+            state["fired"] = True
+            state["armed"] = False
+            raise exc_cls("injected fault in the body of flush (%s)" % mode)
+
+        class FaultyFile:
+            """the AtomicWriteFile flush() works with; arms the fault once the temp file exists"""
+            def __init__(self, *args, **kw):
+                self._real = real_awf(*args, **kw)
+                state["armed"] = True
+
+            def write(self, data):
+                if state["armed"] and mode in ("write", "write-partial"):
+                    if mode == "write-partial":
+                        self._real.write(data[: max(1, len(data) // 2)])
+                    fire()
+                return self._real.write(data)
+
+            def close(self):
+                state["armed"] = False
+                return self._real.close()
+
+            def discard(self):
+                state["armed"] = False
+                return self._real.discard()
+
+            def __getattr__(self, n):
+                return getattr(self._real, n)
+
+        def faulty_str(self_):
+            if state["armed"] and mode == "str":
+                state["calls"] += 1
+                if state["calls"] == k:
+                    fire()
+            return real_str(self_)
+
+        def faulty_sorted(*args, **kw):
+            if state["armed"] and mode == "sorted":
+                fire()
+            return sorted(*args, **kw)
+
+        raised = None
+        with Tracer(d) as tr, mock.patch.object(fl_mod, "AtomicWriteFile", FaultyFile), \
+                mock.patch.object(atom, "__str__", faulty_str), mock.patch.object(fl_mod, "sorted", faulty_sorted, create=True):
+            try:
+                update_worldset(ws, a, remove=(r["op"] == "remove"))
+            except BaseException as e:     # noqa: B036 — KeyboardInterrupt / MemoryError are injected on purpose
+                raised = e
+            finally:
+                state["armed"] = False
+        del ws
+        if not state["fired"]:            # e.g. fewer than k entries: nothing was injected, nothing to check
+            shutil.rmtree(d)
+            return
+        ctx.count("bodyfault_%s_%s" % (mode, exc_cls.__name__))
+        ctx.case(desc, nontrivial=True)
+        if not isinstance(raised, exc_cls):
+            ctx.violation(desc, f"a {exc_cls.__name__} raised inside flush() did not surface (got {type(raised).__name__ if raised else 'no exception'})")
+        after = read_file(path)
+        if after != old_bytes:
+            ctx.violation(desc, f"a fault inside flush() replaced the world file although the new content was never completely written: "
+                                f"{after!r} instead of the old {old_bytes!r}")
+        if fresh_parse(after) != old_set:
+            ctx.violation(desc, f"after a fault inside flush() a fresh WorldFile reads {fresh_parse(after)}, old set {old_set}")
+        snaps = tr.snaps + [tr.final]
+        for i, sn in enumerate(snaps):
+            if sn.get("world") != old_bytes:
+                ctx.violation(desc, f"crash point #{i} during the failed flush shows a world file different from the old one: {sn.get('world')!r}")
+                break
+        pending_discard.append((desc, case, [list(e) for e in tr.events],
+                                [[fresh_parse(sn.get("world")), ".update.world" in sn] for sn in snaps], mode))
+        shutil.rmtree(d)
+
     try:
         cases = corpus()
         for i in range(ctx.n(700, 12000)):
@@ -516,6 +627,15 @@ def run(ctx):
             for fail_at in range(5):
                 run_fault(c, nf, fail_at)
                 nf += 1
+        nb = 0
+        for i, c in enumerate(cases[: ctx.n(60, 600)]):
+            n_after = len(entries_of(c["text"])) + 1
+            for mode, exc_cls in BODY_FAULTS:
+                for k in ({1, (n_after + 1) // 2, n_after} if mode == "str" else {1}):
+                    if mode == "str" and exc_cls is not RuntimeError and k != 1 and i % 3:
+                        continue
+                    run_body_fault(c, nb, mode, exc_cls, k)
+                    nb += 1
     finally:
         shutil.rmtree(root, ignore_errors=True)
 
@@ -538,6 +658,17 @@ def run(ctx):
                 diff = {k: (got[k], want[k]) for k in got if got[k] != want[k]}
                 ctx.mismatch(desc, f"request #{i}: implementation vs Lean model differ in {diff}")
                 break
+    # ---- failed flushes (fault in the body): the real call sequence and every crash point against `discardOps` / flush_discard_keeps_old
+    dreqs = [{"cmd": "c30.discard", "path": "world", "lines": lex(case["text"]), "stale_tmp": bool(case.get("stale_tmp")),
+              "chunks": [["partial"]] if mode == "write-partial" else []} for _, case, _, _, mode in pending_discard]
+    for (desc, case, events, states, mode), rep in zip(pending_discard, ctx.model(dreqs)):
+        if not isinstance(rep, dict):
+            ctx.mismatch(desc, f"driver answered {rep!r}")
+            continue
+        mev = [[o[0], o[1]] for o in rep["ops"]]
+        mst = [[None if w is None else sorted(w), t] for w, t in rep["states"]]
+        if events != mev or states != mst:
+            ctx.mismatch(desc, f"failed flush: implementation calls {events} states {states} vs Lean model (discardOps) {mev} {mst}")
     # the entry function itself, over every slot seen
     slots = sorted({r["slot"] for c, _, _ in pending for r in c["reqs"] if r["slot"] is not None})
     ereqs = [{"cmd": "c30.entry", "key": "cat/pkg", "slot": s} for s in slots + [None]]
